@@ -14,6 +14,8 @@ import (
 	"time"
 
 	crand "crypto/rand"
+	_ "github.com/cbeuw/Cloak/internal/ckclient"
+	_ "github.com/cbeuw/Cloak/internal/ckserver"
 	_ "github.com/cbeuw/Cloak/internal/client"
 	_ "github.com/cbeuw/Cloak/internal/common"
 	_ "github.com/cbeuw/Cloak/internal/multiplex"
